@@ -522,6 +522,12 @@ done:
 				vs = append(vs, v)
 			}
 		}
+		// whenever the failure is reported as a security error the callback received both signed heads
+		for _, m := range ops.sec {
+			if len(ops.notesIn(m)) < 2 {
+				vs = append(vs, core.Violation{Sig: "c13:security-missing-note", What: fmt.Sprintf("the security report does not contain two signed tree heads of the two views: %q", m)})
+			}
+		}
 		ops.mu.Unlock()
 		return vs, true, drift > 0
 	}
